@@ -27,6 +27,9 @@ def run(ctx, rep):
     rep.rule('C02.5', 'a cached slice is written only by a function that consulted the new-cluster map in the same activation')
     rep.rule('C05.4', 'a slice write covers the whole slice (start 0, length byte_size)')
     d = c04.common(ctx, rep)
+    if getattr(d, 'flag_invariant_used', False):
+        rep.assume('need_flush read as false while the flush mutex is held means that no metadata is dirty only in RAM '
+                   '(the flag protocol decided by C18.1/C18.2)')
     sites = {}
     for (kind, where), info in d.sites.items():
         sites.setdefault(kind, set()).add(where)
